@@ -9,7 +9,40 @@ import (
 // FSModel is the file-system model driven by the real code's calls (see fsmodel.go).
 type FSModel struct{}
 
+// envBool is a nondeterministic choice made by the environment (not part of the harness input vector).
+func (p *Path) envBool(label string) bool {
+	if p.tolerant > 0 {
+		panic(tolerantFail{"environment choice in package initialiser"})
+	}
+	p.envNondet = true
+	v := p.fresh("env_"+label, BoolSort)
+	return p.branch(v)
+}
+
+// freshBytes returns a slice of arbitrary content and arbitrary length in [lo, hi].
+func (p *Path) freshBytes(label string, lo, hi uint64) SliceV {
+	c := p.ctx
+	if p.tolerant > 0 {
+		panic(tolerantFail{"environment bytes in package initialiser"})
+	}
+	p.envNondet = true
+	n := p.fresh("env_"+label+"_len", BVSort(64))
+	p.assume(c.ULE(c.BV(64, lo), n))
+	p.assume(c.ULE(n, c.BV(64, hi)))
+	arr := newIntArr(-1, 8)
+	arr.Base = p.fresh("env_"+label+"_data", ArrSort(8))
+	return SliceV{Arr: arr, Off: c.BV(64, 0), Len: n, Cap: n}
+}
+
 func addEnvIntrinsics(m map[string]intrinsic) {
-	_ = token.NoPos
-	var _ *ssa.Function
+	// snappy: contents are opaque; Decode may fail on any input
+	m["github.com/golang/snappy.Decode"] = func(p *Path, fn *ssa.Function, a []Value, pos token.Pos, caller *ssa.Function) []Value {
+		if p.envBool("snappy_decode_ok") {
+			return []Value{p.freshBytes("snappy_decoded", 0, 1<<32), IfaceV{}}
+		}
+		return []Value{p.zeroValue(fn.Signature.Results().At(0).Type()), p.newOpaqueError("snappy: corrupt input")}
+	}
+	m["github.com/golang/snappy.Encode"] = func(p *Path, fn *ssa.Function, a []Value, pos token.Pos, caller *ssa.Function) []Value {
+		return []Value{p.freshBytes("snappy_encoded", 1, 1<<32)}
+	}
 }
